@@ -14,7 +14,8 @@ def run_check(tier, seed, replay=None):
     c.add_model(r, "one wrapper call: capacities around the needed size x inner outcome Ok/Err/Panic, memory with "
                    "guard cells")
     tr = os.path.join(wd, "abi.trace")
-    run_quiet(["abi-record", "--seed", seed, "--files", 10 if q else 120, "--out", tr, "--maxlen", 30000 if q else 200000])
+    run_quiet(["abi-record", "--seed", seed, "--files", 10 if q else 120, "--out", tr, "--maxlen", 30000 if q else 200000,
+               "--limit", 1])
     resets = [x for x in read_ndjson(tr) if x["e"] == "Reset"]
     cfgc = {"Guard": 4096}
     acc, rej, states = validate_runs_const("Trace_Abi", wd, tr, cfgc)
@@ -33,7 +34,9 @@ def run_check(tier, seed, replay=None):
         c.sample(x)
     return c.finish(rule="evaluations = calls of WrapperCompressZip / WrapperDecompressZip on a buffer carved out of a "
                          "larger allocation with 4 KiB of canary on both sides, capacities 0, 1, needed-1, needed, "
-                         "needed+1, ZSTD_compressBound, beyond; plus garbage / truncated / non-container frames; "
+                         "needed+1, ZSTD_compressBound, beyond; plus garbage / truncated / non-container frames; frames around "
+                         "damaged containers followed, in the same process, by the good calls again; one file whose "
+                         "expanded form is exactly 128 MiB; "
                          "non-trivial = distinct (call, capacity, status)")
 
 
